@@ -3,7 +3,7 @@ Model of the admission validators of furiko and of the scheduler-side load (prop
 Core Lean only.
 
 Mirrors, one for one (same order of checks, same comparison operators):
-  * `Validator.ValidateJobConfig`, `ValidateJobConfigSpec`, `ValidateJobTemplate`,
+  * `Validator.ValidateJobConfig`, `validateCronScheduleForJobConfig` (fix d9dad79), `ValidateJobConfigSpec`, `ValidateJobTemplate`,
     `ValidateConcurrencySpec`, `ValidateConcurrencyPolicy`, `ValidateScheduleSpec`,
     `ValidateCronSchedule`, `ValidateCronScheduleExpression`, `ValidateTimezone`,
     `ValidateOptionSpec`, `ValidateJob`, `ValidateJobMetadata`, `ValidateJobSpec`, `ValidateJobType`,
@@ -373,25 +373,13 @@ def validateJobConfigErrs (E : Env) (jc : JobConfig) : Errs :=
   validateMaxLength jc.name Facts.valJobConfigNameMaxLen "metadata.name" ++
   validateJobConfigSpec E jc "spec"
 
-/-- the JobConfig validating webhook (`ValidateJobConfig` + the empty create/update validators);
-`none` = panic, `some []` = admitted -/
-def validateJobConfig (E : Env) (jc : JobConfig) : Option Errs :=
-  if cronPanics E jc then none else some (validateJobConfigErrs E jc)
-
-/-! ### scheduler side (`cronschedule`) -/
+/-! ### scheduler side (`cronschedule`), part 1: what the validator shares with it -/
 
 /-- `CronSchedule.GetExpressions` -/
 def getExpressions (c : CronSchedule) : List String :=
   if c.expression ≠ "" then [c.expression]
   else if c.expressions.length > 0 then c.expressions
   else []
-
-/-- `getTimezone` -/
-def getTimezone (c : CronSchedule) (cfg : CronCfg) : String :=
-  if c.timezone ≠ "" then c.timezone
-  else match cfg.defaultTimezone with
-    | some tz => if tz.length > 0 then tz else Facts.defaultCronTimezone
-    | none => Facts.defaultCronTimezone
 
 /-- `cron.NewExpressionFromCronSchedule`: the first line that does not parse aborts -/
 def newExpression (P : ParseFn) (p : Parser) (hashID : String) : List String → PR
@@ -400,6 +388,41 @@ def newExpression (P : ParseFn) (p : Parser) (hashID : String) : List String →
     match p.parse P l hashID with
     | .ok => newExpression P p hashID rest
     | r => r
+
+/-- `validateCronScheduleForJobConfig` (fix d9dad79): parse the schedule the way the scheduler will, i.e.
+with the JobConfig's namespaced name as hash id.  Skipped when there is no cron schedule or the name is
+still empty (generateName).  It does NOT look at `disabled`.  `none` = panic of the library. -/
+def validateCronScheduleForJobConfig (E : Env) (jc : JobConfig) (path : String) : Option Errs :=
+  match jc.schedule with
+  | none => some []
+  | some s =>
+    match s.cron with
+    | none => some []
+    | some c =>
+      if jc.name = "" then some [] else
+      match newExpression E.P (newParserFromConfig E.cfg) jc.key (getExpressions c) with
+      | .ok => some []
+      | .err => some [⟨path, .invalid⟩]
+      | .panic => none
+
+/-- the JobConfig validating webhook (`ValidateJobConfig` + the empty create/update validators);
+`none` = panic, `some []` = admitted.  `if len(allErrs) == 0 { … validateCronScheduleForJobConfig … }` is
+present iff `Facts.valJobConfigScheduleRecheck` (regenerated from the source). -/
+def validateJobConfig (E : Env) (jc : JobConfig) : Option Errs :=
+  if cronPanics E jc then none else
+  let errs := validateJobConfigErrs E jc
+  if Facts.valJobConfigScheduleRecheck && errs.length == 0 then
+    validateCronScheduleForJobConfig E jc "spec.schedule.cron"
+  else some errs
+
+/-! ### scheduler side (`cronschedule`) -/
+
+/-- `getTimezone` -/
+def getTimezone (c : CronSchedule) (cfg : CronCfg) : String :=
+  if c.timezone ≠ "" then c.timezone
+  else match cfg.defaultTimezone with
+    | some tz => if tz.length > 0 then tz else Facts.defaultCronTimezone
+    | none => Facts.defaultCronTimezone
 
 inductive LoadR where
   | skip      -- (nil, nil, nil): not scheduled
